@@ -178,8 +178,16 @@ def judge(ctx, FST, root, lines_before, rect, text, domain, hist, MOD):
         ctx.count('not_implemented(documented)')
         return False
     elif kind == 'refused-valid':
+        def span_at(tree, line):
+            best = None
+            for n in ast.walk(tree):
+                if isinstance(n, ast.stmt) and n.lineno <= line <= n.end_lineno and (best is None or (n.end_lineno - n.lineno) <= (best[1] - best[0])):
+                    best = (n.lineno, n.end_lineno)
+            return best
         if (old_tree is not None and stmt_containers(ref) != stmt_containers(old_tree)) or nl:
             key = 'stmt-count-change'
+        elif old_tree is not None and span_at(old_tree, ln + 1) != span_at(ref, ln + 1):
+            key = 'stmt-count-change'   # the edit moves the END of the statement (e.g. removes a string's closing quotes so that it runs on into the next lines): statement boundaries change although the counts balance
         elif ':' in text or ':' in removed:
             key = 'block-header-colon-edit-refused-although-whole-valid'   # the header (or the statement) is re-parsed alone; where its ':' is decides what belongs to it
     msg = (f'put_src({text!r}, {ln}, {col}, {end_ln}, {end_col}) [{domain}] on {short(src, 300)!r}: {kind}; '
